@@ -100,7 +100,7 @@ class Bar(object):
             notes = NoteContainer(notes)
         # current_beat is a float running total of reciprocals: allow for its rounding
         # error, so that an entry that exactly fills the bar is not refused.
-        if self.current_beat + 1.0 / duration <= self.length + 1e-9 or self.length == 0.0:
+        if self.current_beat + 1.0 / duration <= self.length + 1e-9 or self.meter == (0, 0):
             self.bar.append([self.current_beat, duration, notes])
             self.current_beat += 1.0 / duration
             return True
@@ -129,14 +129,16 @@ class Bar(object):
 
     def remove_last_entry(self):
         """Remove the last NoteContainer in the Bar."""
-        self.current_beat -= 1.0 / self.bar[-1][1]
+        # back to the beat the entry started on (subtracting its length again
+        # would leave the rounding error of the float sum behind)
+        self.current_beat = self.bar[-1][0]
         self.bar = self.bar[:-1]
         return self.current_beat
 
     def is_full(self):
         """Return False if there is room in this Bar for another
         NoteContainer, True otherwise."""
-        if self.length == 0.0:
+        if self.meter == (0, 0):
             return False
         if len(self.bar) == 0:
             return False
